@@ -15,7 +15,7 @@ def main(c):
     exe = vlib.build_driver('c19', 'asan', extra_cflags=HARNESS_REAL, extra_ldflags=WRAP)
     base = vlib.scratch_dir('c19')
     try:
-        scenarios = ['schema', 'misc'] + ['write%d' % i for i in range(5)] + ['widewrite'] + ['read%d' % m for m in range(3)] + ['batch%d' % m for m in range(3)]
+        scenarios = ['schema', 'misc'] + ['write%d' % i for i in range(5)] + ['goon%d' % i for i in ((0, 1, 2, 3, 4) if thorough else (0, 1))] + ['widewrite'] + ['read%d' % m for m in range(3)] + ['batch%d' % m for m in range(3)]
         if thorough:
             scenarios += ['read%d' % m for m in range(3, 15)] + ['batch%d' % m for m in range(3, 15)]
         # dictionary files from the reference writer
@@ -84,7 +84,7 @@ def main(c):
     c.exhaustive = thorough
     c.extra['exhaustive_scope'] = 'for each scenario every allocation index 1..K fails once in its own process (quick: about 700 evenly spaced indices when K > 900)'
     c.rule = ('link-time interposition (--wrap) of malloc/calloc/realloc/strdup for carquet and statically linked zlib/zstd; the k-th request inside the scenario body returns NULL; scenarios: schema build past 64 columns, '
-              'write of a nullable multi-type table per codec (2 row groups, several pages), a 260-column 3-row-group write (arena growth), open+column reads and batch reads in each I/O mode, dictionary-file reads, statistics '
+              'write of a nullable multi-type table per codec (2 row groups, several pages), the same write by an application that ignores the failed call, writes on and closes (a close that says OK must leave a file that reads to the end of every column), a 260-column 3-row-group write (arena growth), open+column reads and batch reads in each I/O mode, dictionary-file reads, statistics '
               'builder, Bloom filter, byte-array delta and dictionary encoders. ASan/LSan decide crashes, use-after-free and leaks; a call that reports success must have the fault-free effect (file reads back to the table / '
               'same values). distinct = (scenario, k)')
     c.assumptions = ['single-threaded (deterministic allocation order)', 'allocations inside libc/libgomp are not failed']
